@@ -53,8 +53,6 @@ def quick_jobs(rng: random.Random) -> list[dict]:
 def known_jobs() -> list[dict]:
     """Inputs that reproduce the open findings (they must keep reproducing, or the finding is stale)."""
     return [
-        W.job('state', None, model_spec(2, 'all', 'default'), 1, n=2, iseed=3, tag='known-D10'),
-        W.job('system', None, model_spec(2, 'all', 'default'), 1, n=2, iseed=4, tag='known-D10-map'),
         W.job('circuit', dict(n=3, ops=[['cx', [0, 2], []], ['u3', [0], [2.5, 0.6, 1.2]], ['cx', [1, 0], []],
                                         ['u3', [1], [0.3, 1.6, 2.2]], ['cx', [2, 1], []], ['cx', [0, 2], []],
                                         ['u3', [2], [1.3, 0.2, 0.7]], ['cx', [0, 1], []]]),
